@@ -251,3 +251,16 @@ func init() {
 		Runs: []Run{{Pkg: hp + "c16", Variant: "real", NeedBins: []NeedBin{{Env: "VERIF_PLUGINSIM", Variant: "real", Pkg: "internal/zzverif/pluginsim"}}}},
 	}
 }
+
+func init() {
+	specs["C17"] = &Spec{
+		Title: "Only validly named plugins on PATH are ever executed",
+		Level: "exploration",
+		LevelText: "About 750 (quick) / 9800 (thorough) plugin names - every string of length 1..2/3 over 21 characters incl. path separators and shell metacharacters, every printable ASCII character alone and next to a letter, path-like, very long, NUL, non-ASCII names - are placed in recipient-string, identity-string (checksum-valid, so that the name check decides) and bare-name positions of the library constructors, and 245 names in the -r, -R, -i, -e -j and -d -j positions of the real cmd/age binary. A recording executable is installed for every name (and every path an invalid name could resolve to) under a private PATH, the working directory and TMPDIR; construction must succeed exactly for names in [A-Za-z0-9+._-]+, start nothing, and Wrap/Unwrap of accepted names must start exactly PATH/age-plugin-NAME. Headers naming installed plugins as stanza types start nothing.",
+		LevelNote: "observation of 'which executables ran' is by the executables themselves (every start is appended to a log); an executable outside the installed set would not be observed, which is why traps are placed at every location a separator-containing name resolves to",
+		Technique: "bounded-exhaustive input enumeration on the implementation and the real CLI binary with a sentinel PATH oracle",
+		Rule: "enumerate names x positions; oracle: constructor result iff the name is in the allow-list; the exec log lists exactly the expected executable. distinct_nontrivial counts distinct names (library) and (name, CLI position) pairs.",
+		Assumptions: commonAssume,
+		Runs: []Run{{Pkg: hp + "c17", Variant: "real", NeedBins: []NeedBin{{Env: "VERIF_PLUGINSIM", Variant: "real", Pkg: "internal/zzverif/pluginsim"}, {Env: "VERIF_AGE_BIN", Variant: "real", Pkg: "cmd/age"}}}},
+	}
+}
